@@ -38,6 +38,7 @@ KIND_RULES = {
     "K-KEY-LOCAL": "local dicts are subscripted with keys of their inferred key kind",
 }
 PATH_RULES = {
+    "P-REINSERT": "remove_node(keep_edges=True) re-inserts the shrunken hyperedge through add_edge whether or not its key exists already (add_edge merges the weight)",
     "P-FRESH": "a record-creating store is dominated by `key not in _edge_list`; all id-keyed tables are written on that path; metadata of an existing record is only overwritten when supplied",
     "P-ID": "new ids come from the monotone counter, which is advanced by a positive constant on the same path",
     "P-ADJ1": "incidence entries are appended only on the fresh path, in a loop over the key's nodes, with the edge id",
